@@ -204,6 +204,9 @@ class NP:
     def floor(self, x):
         return sym.floor(x) if isinstance(x, SNum) else np.floor(x)
 
+    def fmod(self, x, y):
+        return sym.fmod(x, y) if isinstance(x, SNum) or isinstance(y, SNum) else np.fmod(x, y)
+
     def sign(self, x):
         if isinstance(x, SNum):
             return sym.sign(x)
@@ -252,4 +255,5 @@ NUMPY_FUNCS = {
     np.arctanh: sym.arctanh, np.arcsinh: sym.arcsinh, np.arccosh: sym.arccosh, np.sqrt: sym.sqrt, np.radians: sym.radians, np.degrees: sym.degrees,
     np.deg2rad: sym.radians, np.rad2deg: sym.degrees, np.ceil: (lambda x: sym.ceil(x) if isinstance(x, SNum) else np.ceil(x)),
     np.floor: (lambda x: sym.floor(x) if isinstance(x, SNum) else np.floor(x)),
+    np.fmod: (lambda x, y: sym.fmod(x, y) if isinstance(x, SNum) or isinstance(y, SNum) else np.fmod(x, y)),
 }
